@@ -87,6 +87,29 @@ func (st *c02State) checkRecord(got Record, want *refRec, idx int, ctx string) {
 				r.Fail("records", lane+"/values-differ", "%s record %d value %d: got %v %q want %v %q\ngot %s\nwant %s", ctx, idx, i, m.vals[i].v, m.vals[i].unit, wm.vals[i].v, wm.vals[i].unit, m, want)
 			}
 		}
+		// the reported form of each measurement: the base unit with the value scaled to it and the pair as written kept
+		// alongside, or - where the written unit is a base unit already - just that pair. (For zero, infinite and NaN
+		// values the reader keeps the written pair as it is; whether it should is C04's business, not asserted here.)
+		for i := range g.Values {
+			if i >= len(wm.vals) {
+				break
+			}
+			v, wv, wu := g.Values[i], wm.vals[i].v, wm.vals[i].unit
+			tidy, factor := refTidyUnit(wu), refTidyFactor(wu)
+			plain := v.Unit == wu && v.OrigUnit == "" && sameFloat(v.Value, wv)
+			scaled := v.Unit == tidy && v.OrigUnit == wu && sameFloat(v.OrigValue, wv) && c02Close(v.Value, wv*factor)
+			if tidy == wu && scaled {
+				plain = true // the written pair kept alongside although nothing was rescaled (the reader does so for NaN): same information
+			}
+			switch {
+			case tidy == wu && !plain:
+				r.Fail("records", lane+"/measurement-form-differs", "%s record %d value %d: %v %q is in a base unit already, reader reports {%v %q orig %v %q}", ctx, idx, i, wv, wu, v.Value, v.Unit, v.OrigValue, v.OrigUnit)
+			case tidy != wu && wv != 0 && !math.IsInf(wv, 0) && !math.IsNaN(wv) && !scaled:
+				r.Fail("records", lane+"/measurement-form-differs", "%s record %d value %d: %v %q should be reported as %v %q with the written pair kept, reader reports {%v %q orig %v %q}", ctx, idx, i, wv, wu, wv*factor, tidy, v.Value, v.Unit, v.OrigValue, v.OrigUnit)
+			case tidy != wu && !plain && !scaled:
+				r.Fail("records", lane+"/measurement-form-differs", "%s record %d value %d: %v %q reported as {%v %q orig %v %q}", ctx, idx, i, wv, wu, v.Value, v.Unit, v.OrigValue, v.OrigUnit)
+			}
+		}
 		if !m.equal(wm) {
 			sig := "file-config-differs"
 			for k := range m.cfg {
@@ -210,6 +233,10 @@ func (st *c02State) scanAll(scan func() bool, result func() Record, want []*refR
 }
 
 var c02Tmp string
+
+func c02Close(a, b float64) bool {
+	return a == b || (math.IsNaN(a) && math.IsNaN(b)) || math.Abs(a-b) <= 1e-12*math.Abs(b)
+}
 
 func c02NoPanic(r *sim.Run, what string, f func()) {
 	defer func() {
